@@ -1,14 +1,34 @@
 /-
   C08 — Mate in one is played; avoidable mate in one is never allowed.
-  FULL STATEMENTS over the abstract game of Model/Search.lean.  Decided per run by the correspondence
-  (generated mate-in-one / mixed positions, depths 1..4, judged by the executable rules); the theorems
-  are derived from the C05 contract when `Props/C08Proof.lean` is present.
+  FULL STATEMENTS over the abstract game of Model/Search.lean (`MateInOnePlayed`, `AvoidableMateAvoided`),
+  decided per run by the correspondence (generated mate-in-one / mixed positions, depths 1..4, judged by
+  the executable rules), and PROVED here in the strongest form that is true:
+
+  (a) `mate_in_one_played_of` — any `Limit`, any completed run of depth `1 ≤ D`, `D + INFINITY ≤
+      CHECKMATE_SCORE` (`depth_bound_of_le_64`), under (i) `EvalBound` and (ii) no hash collision between
+      the root and its children.  Direct argument on the model (Lemmas/MateOrder, MateBasic, MatePlayed),
+      no alpha-beta contract, no fuel / finiteness hypothesis.
+      The bare statement is FALSE: `mateInOnePlayed_false` (`mate_in_one_needs_evalBound`: a leaf with
+      evaluation -40000 makes the fail-hard quiescence return -32767, the root cuts on a non-mating move;
+      `mate_in_one_needs_no_collision`: a mated child with the root's key is handed the root's record).
+  (b) `avoidable_mate_avoided_of` / `avoidable_mate_avoided_move_of` — depth 2 and 3, under the hypotheses
+      of `C05.find_best_move_value` (closed set with injective hash, reference values exist, fresh engine,
+      completed, no deeper record reused) plus `EvalBound` (Lemmas/MateSpec, MateAvoid).  Depth 3 holds
+      BECAUSE of iterative deepening: when every move loses at depth 3, `best` is never replaced and the
+      answer is the table move = iteration 2's answer (`Search.iterate_track`).
+      The bare statement is FALSE: `avoidableMateAvoided_false` (`avoidable_mate_needs_evalBound`).
+      "No deeper record reused" holds for every run on a game tree: `no_deeper_reuse_of_ranked`.
+  Non-vacuity: `mate_in_one_played_nonvacuous`, `avoidable_mate_avoided_nonvacuous` (toy games on which
+  every hypothesis holds and the run returns the expected move).
 -/
 import Flounder.Model.Search
 import Flounder.Spec.Minimax
+import Flounder.Lemmas.MateCex
+import Flounder.Lemmas.MateCexB
+import Flounder.Lemmas.MateCexC
 
 namespace Flounder.Props.C08
-open Flounder
+open Flounder Gen Flounder.Search
 
 variable {P : Type} (G : Game P)
 
@@ -17,6 +37,8 @@ def Mates (p : P) (m : Move) : Prop := G.moves (G.play p m) = [] ∧ G.inCheck (
 
 /-- `m` allows a mate in one: some reply mates. -/
 def AllowsMate (p : P) (m : Move) : Prop := ∃ r, r ∈ G.moves (G.play p m) ∧ Mates G (G.play p m) r
+
+instance (p : P) (m : Move) : Decidable (Mates G p m) := by unfold Mates; infer_instance
 
 /-- FULL STATEMENT (a): a completed search of depth ≥ 1 from a fresh engine answers with a mating move
     whenever one exists. -/
@@ -44,5 +66,181 @@ theorem mate_score_below_window (d : Nat) (hd : d ≤ 64) :
 theorem mating_score_above_window (d : Nat) (hd : d ≤ 64) :
     Gen.INFINITY < Gen.CHECKMATE_SCORE - (d : Int) := by
   simp only [Gen.CHECKMATE_SCORE, Gen.INFINITY]; omega
+
+/-! ## Part (a): a mate in one is played -/
+
+theorem mates_iff_mated (p : P) (m : Move) : Mates G p m ↔ Mated G (G.play p m) := Iff.rfl
+
+/-- **(a)** From a fresh engine, if the side to move can mate in one, every COMPLETED search (any
+    `Limit`; completed = the final `stopSeen` is false) of depth `1 ≤ D` with
+    `D + INFINITY ≤ CHECKMATE_SCORE` (the engine caps `D` at 64) answers with a mating move — provided
+    (i) the static evaluation stays strictly inside the window (`EvalBound`, property C14 for chess)
+    and (ii) no child of the root collides with the root's hash key.  No fuel hypothesis is needed:
+    `findBestMove` answering `some _` already says quiescence never ran out of fuel. -/
+theorem mate_in_one_played_of {qfuel D : Nat} {p : P} {limit : Limit} {score : Int} {mv : Option Move}
+    {s' : SearchState} (hE : EvalBound G)
+    (hnc : ∀ m, m ∈ G.moves p → G.hash (G.play p m) ≠ G.hash p)
+    (hD : 1 ≤ D) (hDb : (D : Int) + INFINITY ≤ CHECKMATE_SCORE)
+    (hmate : ∃ m, m ∈ G.moves p ∧ Mates G p m)
+    (hrun : findBestMove G qfuel p D limit {} = (some (score, mv), s')) (hfin : s'.stopSeen = false) :
+    ∃ m, mv = some m ∧ m ∈ G.moves p ∧ Mates G p m :=
+  findBestMove_mate G hE qfuel p hnc hmate D hD hDb limit score mv s' hrun hfin
+
+/-- the depth bound of (a) holds for every depth the engine accepts (`go depth` is capped at 64). -/
+theorem depth_bound_of_le_64 (D : Nat) (h : D ≤ 64) : (D : Int) + INFINITY ≤ CHECKMATE_SCORE := by
+  simp only [CHECKMATE_SCORE, INFINITY]; omega
+
+/-- non-vacuity of (a): the toy game `okGame` (root 0 with a quiet-ending capture `evA` and a mating
+    capture `evB`) meets every hypothesis at depth 3 without a deadline, the run completes, and the
+    answer is the mating move `evB`. -/
+theorem mate_in_one_played_nonvacuous :
+    EvalBound okGame ∧ (∀ m, m ∈ okGame.moves 0 → okGame.hash (okGame.play 0 m) ≠ okGame.hash 0) ∧
+    ((3 : Nat) : Int) + INFINITY ≤ CHECKMATE_SCORE ∧ (∃ m, m ∈ okGame.moves 0 ∧ Mates okGame 0 m) ∧
+    ∃ score s', findBestMove okGame 1 0 3 .none {} = (some (score, some evB), s') ∧ s'.stopSeen = false := by
+  have hm : ∃ m, m ∈ okGame.moves 0 ∧ Mates okGame 0 m := ⟨evB, ok_mate⟩
+  refine ⟨ok_evalBound, ok_no_collision, by decide, hm, ?_⟩
+  obtain ⟨score, mv, s', hrun, hfin⟩ := ok_run
+  obtain ⟨m, rfl, hmem, hmM⟩ := mate_in_one_played_of okGame ok_evalBound ok_no_collision (by decide)
+    (by decide) hm hrun hfin
+  have : m = evB := ok_only_mate m hmem hmM
+  subst this
+  exact ⟨score, s', hrun, hfin⟩
+
+/-- hypothesis (i) cannot be dropped: in `evGame` (evaluation -40000 in one leaf, everything else as
+    (a) demands: fresh engine, no deadline so the run completes, depth 1, no hash collision, a mating
+    move exists) the answer is the NON-mating capture `evA`. -/
+theorem mate_in_one_needs_evalBound :
+    (∀ m, m ∈ evGame.moves 0 → evGame.hash (evGame.play 0 m) ≠ evGame.hash 0) ∧
+    (∃ m, m ∈ evGame.moves 0 ∧ Mates evGame 0 m) ∧ ¬ Mates evGame 0 evA ∧
+    ∃ s', findBestMove evGame 1 0 1 .none {} = (some (32767, some evA), s') ∧ s'.stopSeen = false := by
+  refine ⟨by decide, ⟨evB, List.mem_cons_of_mem _ List.mem_cons_self, by decide⟩, by decide,
+    (findBestMove evGame 1 0 1 .none {}).2, ?_, ev_completed⟩
+  rw [← ev_findBestMove]
+
+/-- hypothesis (ii) cannot be dropped either: in `colGame` the mated child of the root has the root's
+    hash key (everything else as (a) demands: `EvalBound`, fresh engine, no deadline so the run
+    completes, depth 2).  Iteration 1 finds the mate; in iteration 2 the child of the mating move
+    probes the table, is handed the ROOT's cached record as its own value, and the answer is the
+    NON-mating capture `colA`. -/
+theorem mate_in_one_needs_no_collision :
+    EvalBound colGame ∧ ((2 : Nat) : Int) + INFINITY ≤ CHECKMATE_SCORE ∧
+    (∃ m, m ∈ colGame.moves 0 ∧ Mates colGame 0 m) ∧ ¬ Mates colGame 0 colA ∧
+    colGame.hash (colGame.play 0 colB) = colGame.hash 0 ∧
+    ∃ s', findBestMove colGame 1 0 2 .none {} = (some (0, some colA), s') ∧ s'.stopSeen = false := by
+  refine ⟨col_evalBound, by decide, ⟨colB, col_mate⟩, by decide, col_collision,
+    (findBestMove colGame 1 0 2 .none {}).2, ?_, col_completed⟩
+  rw [← col_findBestMove]
+
+/-- hence the bare FULL STATEMENT (a) is false for some game. -/
+theorem mateInOnePlayed_false : ¬ MateInOnePlayed evGame := by
+  intro h
+  obtain ⟨_, hm, hn, s', hrun, hfin⟩ := mate_in_one_needs_evalBound
+  obtain ⟨m, e, hmM⟩ := h 1 1 0 .none 32767 (some evA) s' (Nat.le_refl _) hm hrun hfin
+  cases e
+  exact hn hmM
+
+/-! ## Part (b): an avoidable mate in one is avoided at depth 2 and 3 -/
+
+theorem allowsMate_iff_allows (p : P) (m : Move) : AllowsMate G p m ↔ Allows G p m := Iff.rfl
+
+/-- **(b)**, with the move exhibited.  Under the hypotheses of the alpha-beta soundness theorem
+    (`Props/C05.lean: find_best_move_value`): a set `S ∋ p` of positions closed under the moves on which
+    the hash is injective, reference values of depths `1..D` exist with quiescence fuel `qf ≤ qfuel`,
+    fresh engine, completed run (any `Limit`), no deeper record reused — plus `EvalBound`: at depth 2
+    and 3, if some legal move does not allow a mate in one, the answer is a legal move that does not
+    allow one either. -/
+theorem avoidable_mate_avoided_move_of {S : P → Prop} {qf qfuel D : Nat} {p : P} {limit : Limit}
+    {score : Int} {mv : Option Move} {s' : SearchState}
+    (hE : EvalBound G) (hcl : Closed G S) (hinj : HashInj G S) (hSp : S p) (hq : qf ≤ qfuel)
+    (hD : D = 2 ∨ D = 3) (hV : ∀ d, 1 ≤ d → d ≤ D → ∃ w, Spec.V G qf d p = some w)
+    (hsafe : ∃ m, m ∈ G.moves p ∧ ¬ AllowsMate G p m)
+    (hrun : findBestMove G qfuel p D limit {} = (some (score, mv), s')) (hfin : s'.stopSeen = false)
+    (hdh : s'.deeperHits = 0) :
+    ∃ m, mv = some m ∧ m ∈ G.moves p ∧ ¬ AllowsMate G p m := by
+  obtain ⟨sc, m, h1, hmem, hns⟩ := findBestMove_safe G hE hcl hinj qfuel hq p hSp D hD hV hsafe limit
+    (by rw [hrun]; exact hfin) (by rw [hrun]; exact hdh)
+  rw [hrun] at h1
+  cases h1
+  exact ⟨m, rfl, hmem, hns⟩
+
+/-- **(b)** in the shape of the FULL STATEMENT `AvoidableMateAvoided`. -/
+theorem avoidable_mate_avoided_of {S : P → Prop} {qf qfuel D : Nat} {p : P} {limit : Limit}
+    {score : Int} {mv : Option Move} {s' : SearchState}
+    (hE : EvalBound G) (hcl : Closed G S) (hinj : HashInj G S) (hSp : S p) (hq : qf ≤ qfuel)
+    (hD : D = 2 ∨ D = 3) (hV : ∀ d, 1 ≤ d → d ≤ D → ∃ w, Spec.V G qf d p = some w)
+    (hsafe : ∃ m, m ∈ G.moves p ∧ ¬ AllowsMate G p m)
+    (hrun : findBestMove G qfuel p D limit {} = (some (score, mv), s')) (hfin : s'.stopSeen = false)
+    (hdh : s'.deeperHits = 0) :
+    ∀ m, mv = some m → ¬ AllowsMate G p m := by
+  obtain ⟨m', e, _, hns⟩ := avoidable_mate_avoided_move_of G hE hcl hinj hSp hq hD hV hsafe hrun hfin hdh
+  intro m hm
+  rw [e] at hm
+  cases hm
+  exact hns
+
+/-- the hypothesis "no deeper record reused" of (b) holds for EVERY run (any depth, any `Limit`) from
+    a fresh engine on a game tree: positions of `S` carry a rank that every move increases by one. -/
+theorem no_deeper_reuse_of_ranked {S : P → Prop} {rank : P → Nat} (hcl : Closed G S) (hinj : HashInj G S)
+    (hrk : PlyRanked G S rank) (qfuel : Nat) (p : P) (hp : S p) (hr0 : rank p = 0) (D : Nat) (limit : Limit) :
+    (findBestMove G qfuel p D limit {}).2.deeperHits = 0 :=
+  findBestMove_deeperHits_ranked hcl hinj hrk qfuel p hp hr0 D limit
+
+/-- non-vacuity of (b): the toy game `avGame` (`avA` allows a mate in one, `avB` does not) meets every
+    hypothesis at depth 2 and at depth 3 without a deadline; the run completes, reuses no deeper
+    record, and the answer is `avB`. -/
+theorem avoidable_mate_avoided_nonvacuous (D : Nat) (hD : D = 2 ∨ D = 3) :
+    EvalBound avGame ∧ Closed avGame avS ∧ HashInj avGame avS ∧ avS 0 ∧
+    (∀ d, 1 ≤ d → d ≤ D → ∃ w, Spec.V avGame 1 d 0 = some w) ∧
+    (∃ m, m ∈ avGame.moves 0 ∧ ¬ AllowsMate avGame 0 m) ∧
+    (∃ m, m ∈ avGame.moves 0 ∧ AllowsMate avGame 0 m) ∧
+    ∃ score s', findBestMove avGame 1 0 D .none {} = (some (score, some avB), s') ∧
+      s'.stopSeen = false ∧ s'.deeperHits = 0 := by
+  have hV : ∀ d, 1 ≤ d → d ≤ D → ∃ w, Spec.V avGame 1 d 0 = some w :=
+    fun d h1 h2 => av_values d h1 (by omega)
+  have hsafe : ∃ m, m ∈ avGame.moves 0 ∧ ¬ AllowsMate avGame 0 m :=
+    ⟨avB, List.mem_cons_of_mem _ List.mem_cons_self, av_not_allows_B 0 0⟩
+  have hS0 : avS 0 := Nat.zero_le _
+  refine ⟨av_evalBound, av_closed 0 0, av_hashInj 0 0, hS0, hV, hsafe,
+    ⟨avA, List.mem_cons_self, av_allows_A 0 0⟩, ?_⟩
+  obtain ⟨⟨score, mv⟩, hb⟩ := findBestMove_some avGame 1 1 (Nat.le_refl _) 0 D
+    (fun d hd => by
+      have h : ∀ d, d ≤ 3 → (Spec.V avGame 1 d 0).isSome = true := by decide
+      exact Option.isSome_iff_exists.1 (h d (by omega))) .none {}
+  have hrun : findBestMove avGame 1 0 D .none {} = (some (score, mv), (findBestMove avGame 1 0 D .none {}).2) := by
+    rw [← hb]
+  have hfin := av_completed 0 0 1 D
+  have hdh := av_deeperHits 0 0 1 D .none
+  obtain ⟨m, rfl, hmem, hns⟩ := avoidable_mate_avoided_move_of avGame av_evalBound (av_closed 0 0)
+    (av_hashInj 0 0) hS0 (Nat.le_refl 1) hD hV hsafe hrun hfin hdh
+  have hmB : m = avB := by
+    rcases av_moves 0 0 m hmem with e | e
+    · subst e; exact absurd (av_allows_A 0 0) hns
+    · exact e
+  subst hmB
+  exact ⟨score, _, hrun, hfin, hdh⟩
+
+/-- `EvalBound` cannot be dropped from (b): `avBad` (evaluation -40000 in one leaf) meets every other
+    hypothesis at depth 2 — closed set with injective hash, reference values, fresh engine, no deadline
+    so the run completes, no deeper record reused, `avB` allows no mate — and the answer is `avA`, which
+    allows a mate in one.  (In iteration 2 both moves lose, `best` is never replaced, and the engine
+    repeats iteration 1's answer.) -/
+theorem avoidable_mate_needs_evalBound :
+    Closed avBad avS ∧ HashInj avBad avS ∧ avS 0 ∧
+    (∀ d, 1 ≤ d → d ≤ 2 → ∃ w, Spec.V avBad 1 d 0 = some w) ∧
+    (∃ m, m ∈ avBad.moves 0 ∧ ¬ AllowsMate avBad 0 m) ∧ AllowsMate avBad 0 avA ∧
+    ∃ score s', findBestMove avBad 1 0 2 .none {} = (some (score, some avA), s') ∧
+      s'.stopSeen = false ∧ s'.deeperHits = 0 := by
+  have hfin := av_completed 5 (-40000) 1 2
+  obtain ⟨score, hrun⟩ := avBad_answer .none hfin
+  refine ⟨av_closed _ _, av_hashInj _ _, Nat.zero_le _, avBad_values,
+    ⟨avB, List.mem_cons_of_mem _ List.mem_cons_self, av_not_allows_B _ _⟩, av_allows_A _ _,
+    score, (findBestMove avBad 1 0 2 .none {}).2, ?_, hfin, av_deeperHits _ _ 1 2 .none⟩
+  rw [← hrun]
+
+/-- hence the bare FULL STATEMENT (b) is false for some game. -/
+theorem avoidableMateAvoided_false : ¬ AvoidableMateAvoided avBad := by
+  intro h
+  obtain ⟨_, _, _, _, hsafe, hA, score, s', hrun, hfin, _⟩ := avoidable_mate_needs_evalBound
+  exact h 1 2 0 .none score (some avA) s' (Or.inl rfl) hsafe hrun hfin avA rfl hA
 
 end Flounder.Props.C08
